@@ -579,55 +579,6 @@ def _norm_extrema(e):
 # statelessness: every method is a function of the configuration and its arguments
 
 
-def _unvalidated_cache(fd, st, target, recv, module_names):
-    """A store into self is harmless only as a *validated* cache: it sits under a test that compares (== / !=), against the
-    stored key, every input the cached value is computed from -- every attribute of self and every name defined outside the
-    guarded block that the block reads.  Returns None when that is the case, else what is missing.  A sample array can never be
-    a validated input (the same object may hold other numbers at the next call)."""
-    import builtins
-    from .astutil import ancestors
-    guard = next((a for a in ancestors(st) if isinstance(a, ast.If)), None)
-    if guard is None or not any(st is n_ for b in guard.body for n_ in ast.walk(b)):
-        return "not under a test that validates it"
-    key_txt = set()
-    for c in ast.walk(guard.test):
-        if isinstance(c, ast.Compare) and all(isinstance(o, (ast.Eq, ast.NotEq)) for o in c.ops):
-            for side in [c.left] + list(c.comparators):
-                for n_ in ast.walk(side):
-                    if isinstance(n_, (ast.Name, ast.Attribute)):
-                        key_txt.add(norm(n_))
-    assigned = {n_.id for b in guard.body for n_ in ast.walk(b) if isinstance(n_, ast.Name) and isinstance(n_.ctx, ast.Store)}
-    params = {a.arg for a in fd.args.posonlyargs + fd.args.args + fd.args.kwonlyargs} - {recv}
-    cache_attr = norm(target).split("[")[0]
-    missing = []
-    for b in guard.body:
-        for n_ in ast.walk(b):
-            if isinstance(n_, ast.Name) and isinstance(n_.ctx, ast.Load):
-                if n_.id in assigned or n_.id == recv or n_.id in module_names or hasattr(builtins, n_.id) or n_.id in ("np", "math", "warnings"):
-                    continue
-                if n_.id in params:
-                    missing.append(f"parameter {n_.id} (an argument cannot be validated by a stored key)")
-                elif n_.id not in key_txt:
-                    missing.append(n_.id)
-            elif isinstance(n_, ast.Attribute) and isinstance(n_.ctx, ast.Load) and norm(n_).startswith(recv + "."):
-                from .core import norm as _n
-                par = getattr(n_, "_parent", None)
-                if isinstance(par, ast.Attribute):
-                    continue  # a longer chain is looked at instead
-                txt = norm(n_)
-                if txt == cache_attr or txt.startswith(cache_attr + "."):
-                    continue
-                if isinstance(par, ast.Call) and par.func is n_:
-                    missing.append(f"{txt}(...) (a method's result cannot be validated by a stored key)")
-                elif txt not in key_txt:
-                    missing.append(txt)
-            elif isinstance(n_, ast.Call) and norm(n_.func) == "getattr" and n_.args and norm(n_.args[0]) == recv:
-                missing.append(norm(n_)[:40])
-    if missing:
-        return "the value depends on " + ", ".join(sorted(set(missing))[:4]) + ", which the guard does not compare with the stored key"
-    return None
-
-
 def rule_stateless(chk, rule):
     """Every rule about NonnegMean.py reads one method body as *the* definition of what a call computes.  That is the case only
     if no method keeps state between calls: outside __init__ nothing is stored into `self` (attribute, item of an attribute,
@@ -635,75 +586,41 @@ def rule_stateless(chk, rule):
     getattr with a fall-back (the idiom of a lazily created cache).  Memoising a value that "does not depend on the data" is the
     realistic way to break this: the cached value is stale as soon as the library re-assigns test.u, or the caller refills an
     array in place."""
+    from . import aud as _aud
     idx = chk.idx
     m = idx.module(REL)
     n = 0
-    MUTATORS = {"append", "extend", "insert", "pop", "popitem", "clear", "update", "setdefault", "add", "discard", "remove", "sort",
-                "reverse", "__setitem__", "move_to_end"}
-    module_names, module_mutables = set(), set()
-    for st in m.tree.body:
-        if isinstance(st, (ast.Assign, ast.AnnAssign)):
-            tg = st.targets if isinstance(st, ast.Assign) else [st.target]
-            for t in tg:
-                if isinstance(t, ast.Name):
-                    module_names.add(t.id)
-                    v = st.value
-                    if isinstance(v, (ast.List, ast.Dict, ast.Set, ast.ListComp, ast.DictComp, ast.SetComp)) or \
-                            (isinstance(v, ast.Call) and norm(v.func).split(".")[-1] in ("dict", "list", "set", "defaultdict", "OrderedDict",
-                                                                                      "WeakKeyDictionary", "WeakValueDictionary", "deque")):
-                        module_mutables.add(t.id)
-        elif isinstance(st, ast.ClassDef):
-            module_names.add(st.name)
     for q, fd in sorted(m.defs.items()):
         if not isinstance(fd, ast.FunctionDef):
             continue
         if q.endswith(".__init__") or q.endswith(".__str__") or q.endswith(".__repr__"):
             continue
-        local_names = {a.arg for a in fd.args.posonlyargs + fd.args.args + fd.args.kwonlyargs} | \
-            {x.id for x in walk_local(fd) if isinstance(x, ast.Name) and isinstance(x.ctx, ast.Store)}
-        first = fd.args.args[0].arg if ("." in q and fd.args.args) else None
-        recv = first if first in ("self", "cls") else None
-        problems = []
-        for d in list(fd.args.defaults) + [k for k in fd.args.kw_defaults if k is not None]:
-            if isinstance(d, (ast.List, ast.Dict, ast.Set, ast.ListComp, ast.DictComp, ast.SetComp)) or \
-                    (isinstance(d, ast.Call) and norm(d.func) in ("dict", "list", "set", "defaultdict", "OrderedDict", "collections.defaultdict")):
-                problems.append(f"mutable default {norm(d)[:40]} (line {d.lineno})")
-        for nd in walk_local(fd):
-            if isinstance(nd, (ast.Global, ast.Nonlocal)):
-                problems.append(f"{type(nd).__name__.lower()} {', '.join(nd.names)} (line {nd.lineno})")
-            tg = []
-            if isinstance(nd, ast.Assign):
-                tg = nd.targets
-            elif isinstance(nd, (ast.AugAssign, ast.AnnAssign)):
-                tg = [nd.target]
-            elif isinstance(nd, ast.Delete):
-                tg = nd.targets
-            elif isinstance(nd, ast.NamedExpr):
-                tg = []
-            for t in tg:
-                for sub in ([t] if not isinstance(t, (ast.Tuple, ast.List)) else t.elts):
-                    root = sub
-                    while isinstance(root, (ast.Attribute, ast.Subscript)):
-                        root = root.value
-                    if recv and isinstance(sub, (ast.Attribute, ast.Subscript)) and isinstance(root, ast.Name) and root.id == recv:
-                        why = _unvalidated_cache(fd, nd, sub, recv, module_names)
-                        if why:
-                            problems.append(f"stores {norm(sub)[:50]} (line {nd.lineno}): {why}")
-                    elif isinstance(sub, (ast.Attribute, ast.Subscript)) and isinstance(root, ast.Name) and root.id in module_names \
-                            and root.id not in local_names:
-                        problems.append(f"stores {norm(sub)[:50]}, rooted at a module-level name (line {nd.lineno})")
-            if isinstance(nd, ast.Call):
-                f = norm(nd.func)
-                if f in ("setattr", "object.__setattr__", "delattr") and nd.args and recv and norm(nd.args[0]) == recv:
-                    problems.append(f"{f}({recv}, ...) (line {nd.lineno})")
-                if recv and f in (f"{recv}.__dict__.update", f"{recv}.__dict__.setdefault", f"vars({recv}).update", f"{recv}.__dict__.pop"):
-                    problems.append(f"{f}(...) (line {nd.lineno})")
-                if isinstance(nd.func, ast.Attribute) and isinstance(nd.func.value, ast.Name) and nd.func.value.id in module_mutables \
-                        and nd.func.value.id not in local_names and nd.func.attr in MUTATORS:
-                    problems.append(f"{f}(...) mutates a module-level container (line {nd.lineno})")
+        problems = _aud.state_problems(m.tree, q, fd)
         n += 1
         chk.ob(rule, f"{REL}:{q}", "keeps-no-state", not problems,
                "a call computes a function of the configuration installed by the constructor and of its arguments: nothing is "
                "stored into self or into a module-level object outside __init__, no global declaration, no mutable default",
                node=fd, strength="N", **({"problems": problems} if problems else {}))
     chk.need(rule, n, 12, "functions of NonnegMean.py examined for state")
+
+
+# ---------------------------------------------------------------------------
+# the constructor's positional protocol
+
+CTOR_ORDER = ["self", "test", "estim", "bet", "u", "N", "t", "random_order"]  # as documented in the class docstring and used
+#                                                                               positionally by callers outside the package
+
+
+def rule_ctor_signature(chk, rule):
+    """NonnegMean(test, estim, bet, u, N, t, random_order, **kwargs): the positional parameters keep this order and these
+    defaults' meaning; a new parameter is appended or keyword-only.  One inserted in the middle binds a positional
+    `random_order=False` (or N, t) to something else without any error."""
+    fd = chk.idx.func(REL, "NonnegMean.__init__")
+    got = [a.arg for a in fd.args.posonlyargs + fd.args.args]
+    ok = got[:len(CTOR_ORDER)] == CTOR_ORDER
+    dflt = dict(zip([a.arg for a in fd.args.args][len(fd.args.args) - len(fd.args.defaults):], [norm(d) for d in fd.args.defaults]))
+    ok_d = dflt.get("random_order") == "True" and dflt.get("u") == "1" and dflt.get("t") in ("1/2", "0.5", ".5")
+    chk.ob(rule, f"{REL}:NonnegMean.__init__", "positional-protocol", ok and ok_d,
+           "the constructor's positional parameters are (test, estim, bet, u, N, t, random_order), in this order, with random_order "
+           "defaulting to True, u to 1 and t to 1/2: anything new comes after them or is keyword-only", node=fd, strength="N",
+           parameters=got, defaults={k: dflt.get(k) for k in ("u", "N", "t", "random_order")})
